@@ -81,6 +81,20 @@ theorem norm_zero {ε : K} {sq : K → K} (v : List K) (h : ∀ x ∈ v, x = 0) 
   obtain ⟨y, hy, rfl⟩ := List.mem_map.mp hx
   rw [h y hy, zero_mul]
 
+theorem zipWith_zip_self {α : Type} (f : α → α × α → α) (h : ∀ x, f x (x, x) = x) :
+    ∀ l : List α, List.zipWith f l (List.zip l l) = l := by
+  intro l
+  induction l with
+  | nil => rfl
+  | cons a l ih => simp only [List.zip_cons_cons, List.zipWith_cons_cons, h a, ih]
+
+theorem zipWith_self {α : Type} (f : α → α → α) (h : ∀ x, f x x = x) :
+    ∀ l : List α, List.zipWith f l l = l := by
+  intro l
+  induction l with
+  | nil => rfl
+  | cons a l ih => simp only [List.zipWith_cons_cons, h a, ih]
+
 theorem eq_of_mem_zip_self {α : Type} {b c : α} : ∀ {l : List α}, (b, c) ∈ List.zip l l → b = c := by
   intro l
   induction l with
